@@ -26,7 +26,9 @@ META = {
         "loop) are applied in place and after each one all three functions are called again (generated call order) with "
         "the same function object and an equal - or the identical - node sequence, each answer judged on the graph as it "
         "is at that moment (bucket suffix :stale-after-graph-edit when the answer fits an earlier state). Sub-check `edges`: *_edges(backend='python') on 0..n-1 judged by the same "
-        "oracle and compared with the callback variants. Non-trivial = >=1 SCC of size >=2 and >=2 SCCs. Distinct = "
+        "oracle and compared with the callback variants; the same call-history treatment on ONE edge-list object edited in "
+        "place (replace / flip an element = same length, append, delete, delete+append, n+1), both wrappers called again with "
+        "that very list object after every edit and judged on its content at call time. Non-trivial = >=1 SCC of size >=2 and >=2 SCCs. Distinct = "
         "canonical JSON of the case."
     ),
     "assumptions": [
@@ -76,7 +78,7 @@ def _cuts(draw, n, p_true):
 
 
 @st.composite
-def digraphs(draw, tier="quick", allow_outside=True, with_edits=False):
+def digraphs(draw, tier="quick", allow_outside=True, with_edits=False, with_list_edits=False):
     nmax = 11 if tier == "thorough" else 8
     family = draw(st.sampled_from(_FAMILY_DRAW))
     n_in = draw(st.sampled_from([1, 2, 3, 0] + list(range(4, nmax + 1))))
@@ -161,6 +163,21 @@ def digraphs(draw, tier="quick", allow_outside=True, with_edits=False):
         desc["edits"] = [list(e) for e in draw(st.lists(edit, max_size=3))]
         desc["reuse_nodes"] = draw(st.booleans())  # hand over the very same list/tuple object on every call
         desc["orders"] = [draw(st.integers(0, 5)), draw(st.integers(0, 5))]  # call order before / after edits
+    if with_list_edits:
+        # a short call history on ONE edge-list object that is edited in place (see run_edges); vertex numbers
+        # and positions are reduced modulo the current n / list length at run time
+        W, P = st.integers(0, 15), st.integers(0, 63)
+        edit = st.one_of(
+            st.tuples(st.just("set"), P, W, W),  # edges[i] = (u, v): same length
+            st.tuples(st.just("set"), P, W, W),
+            st.tuples(st.just("flip"), P),  # edges[i] = reversed edge: same length
+            st.tuples(st.just("append"), W, W),
+            st.tuples(st.just("delete"), P),
+            st.tuples(st.just("delete-append"), P, W, W),  # two in-place operations, length restored
+            st.tuples(st.just("grow")),  # n_nodes + 1 with the same list
+        )
+        desc["edits"] = [list(e) for e in draw(st.lists(edit, max_size=3))]
+        desc["orders"] = [draw(st.integers(0, 1)), draw(st.integers(0, 1))]  # which wrapper first: before / after edits
     return desc
 
 
@@ -407,6 +424,32 @@ def run_callback(desc, ctx):
 
 
 # ----------------------------------------------------------------------------- sub-check: *_edges(backend="python")
+def _edit_edge_list(edit, n, elist):
+    """Apply one edit IN PLACE to the list object `elist`.  Returns the new n, or None for a no-op."""
+    op = edit[0]
+    if op == "grow":
+        return n + 1
+    if op in ("set", "append", "delete-append") and n == 0:
+        return None
+    if op in ("set", "flip", "delete", "delete-append") and not elist:
+        return None
+    if op == "set":
+        elist[edit[1] % len(elist)] = (edit[2] % n, edit[3] % n)
+    elif op == "flip":
+        i = edit[1] % len(elist)
+        elist[i] = (elist[i][1], elist[i][0])
+    elif op == "append":
+        elist.append((edit[1] % n, edit[2] % n))
+    elif op == "delete":
+        del elist[edit[1] % len(elist)]
+    elif op == "delete-append":
+        del elist[edit[1] % len(elist)]
+        elist.append((edit[2] % n, edit[3] % n))
+    else:
+        raise AssertionError(f"unknown edit {edit!r}")
+    return n
+
+
 def run_edges(desc, ctx):
     from solvor.scc import (
         strongly_connected_components,
@@ -417,8 +460,6 @@ def run_edges(desc, ctx):
 
     N = desc["N"]
     edges = [tuple(e) for e in desc["edges"]]
-    idx = {i: i for i in range(N)}
-    verts = set(range(N))
     classes = G.scc_classes(N, edges)
     acyclic = G.is_acyclic(N, edges)
     ctx.label(desc["family"], "acyclic" if acyclic else "cyclic", N == 0 and "empty-node-set")
@@ -427,26 +468,82 @@ def run_edges(desc, ctx):
     ctx.size("edges", len(edges))
     ctx.nontrivial(len(classes) >= 2 and any(len(c) >= 2 for c in classes))
 
-    succ = [[] for _ in range(N)]
-    for u, v in edges:
-        succ[u].append(v)
+    def judge(which, res, n, snapshot):
+        idx = {i: i for i in range(n)}
+        if which == "scc":
+            return _judge_scc_result("edges-scc", res, idx, n, snapshot, set(range(n)))
+        return _judge_topo_result("edges-topo", res, idx, n, snapshot, set(range(n)))
 
-    res_e = ctx.call(strongly_connected_components_edges, N, list(edges), backend="python")
-    comps_e = _judge_scc_result("edges-scc", res_e, idx, N, edges, verts)
-    res_c = ctx.call(strongly_connected_components, range(N), lambda s: succ[s])
-    comps_c = _judge_scc_result("scc", res_c, idx, N, edges, verts)
-    if {frozenset(c) for c in comps_e} != {frozenset(c) for c in comps_c}:
-        raise Violation("edges-scc:differs-from-callback-variant", {"edges": comps_e, "callback": comps_c})
+    def callback_variants(n, snapshot, got):
+        """The callback variants on range(n) + adjacency built here from the snapshot: same meaning."""
+        idx = {i: i for i in range(n)}
+        succ = [[] for _ in range(n)]
+        for u, v in snapshot:
+            succ[u].append(v)
+        res_c = ctx.call(strongly_connected_components, range(n), lambda s: succ[s])
+        comps_c = _judge_scc_result("scc", res_c, idx, n, snapshot, set(range(n)))
+        if {frozenset(c) for c in got["scc"]} != {frozenset(c) for c in comps_c}:
+            raise Violation("edges-scc:differs-from-callback-variant", {"edges": got["scc"], "callback": comps_c})
+        res_c = ctx.call(topological_sort, range(n), lambda s: succ[s])
+        feas_c = _judge_topo_result("topo", res_c, idx, n, snapshot, set(range(n)))
+        if got["topo"] != feas_c:
+            raise Violation("edges-topo:status-differs-from-callback-variant", {"edges-feasible": got["topo"], "callback-feasible": feas_c})
 
-    res_e = ctx.call(topological_sort_edges, N, list(edges), backend="python")
-    feas_e = _judge_topo_result("edges-topo", res_e, idx, N, edges, verts)
-    res_c = ctx.call(topological_sort, range(N), lambda s: succ[s])
-    feas_c = _judge_topo_result("topo", res_c, idx, N, edges, verts)
-    if feas_e != feas_c:
-        raise Violation("edges-topo:status-differs-from-callback-variant", {"edges": _status(res_e), "callback": _status(res_c)})
+    wrappers = {"scc": strongly_connected_components_edges, "topo": topological_sort_edges}
+    order_names = [("scc", "topo"), ("topo", "scc")]
+    o0, o1 = desc.get("orders", (0, 0))
+
+    # ONE list object for the whole case; both wrappers always receive this very object
+    elist = list(edges)
+    n = N
+    got = {}
+    for which in order_names[o0]:
+        got[which] = judge(which, ctx.call(wrappers[which], n, elist, backend="python"), n, list(elist))
+    callback_variants(n, list(elist), got)
+
+    # --- call history: edit the list IN PLACE, call the same wrapper and its sibling again with the same list
+    #     object, judge against the list's content at call time
+    history = [(n, list(elist))]
+    for step, edit in enumerate(desc.get("edits", ()), start=1):
+        before_len = len(elist)
+        n2 = _edit_edge_list(edit, n, elist)
+        if n2 is None:
+            continue
+        n = n2
+        now = list(elist)
+        history.append((n, now))
+        ctx.label(f"edit-{edit[0]}", len(now) == before_len and edit[0] != "grow" and "edit-keeps-length")
+        ctx.count("calls-after-edit", 2)
+        pn, pe = history[-2]
+        ctx.label(
+            G.scc_classes(pn, pe) != G.scc_classes(n, now) and "edit-changes-sccs",
+            G.is_acyclic(pn, pe) != G.is_acyclic(n, now) and "edit-changes-acyclicity",
+        )
+        got = {}
+        for which in order_names[o1]:
+            res = ctx.call(wrappers[which], n, elist, backend="python")
+            if elist != now:
+                raise Violation("edges:input-list-modified", {"before": now, "after": list(elist)})
+            try:
+                got[which] = judge(which, res, n, now)
+            except Violation as v:
+                stale_for = None
+                for back, (on, oe) in enumerate(reversed(history[:-1]), start=1):
+                    try:
+                        judge(which, res, on, oe)
+                    except Violation:
+                        continue
+                    stale_for = back
+                    break
+                suffix = "stale-after-graph-edit" if stale_for else "wrong-after-graph-edit"
+                raise Violation(
+                    f"{v.bucket}:{suffix}",
+                    {"step": step, "edit": edit, "n": n, "edges-now": [list(e) for e in now], "right-for-state-n-edits-ago": stale_for, "verdict-now": v.detail},
+                )
+        callback_variants(n, now, got)
 
 
 SUBS = [
     Sub("callback", run_callback, strategy=lambda tier: digraphs(tier, with_edits=True), quick=2500, thorough=6000, workers_quick=4),
-    Sub("edges", run_edges, strategy=lambda tier: digraphs(tier, allow_outside=False), quick=500, thorough=2000, workers_quick=2),
+    Sub("edges", run_edges, strategy=lambda tier: digraphs(tier, allow_outside=False, with_list_edits=True), quick=1000, thorough=2000, workers_quick=2),
 ]
